@@ -43,6 +43,7 @@ def setup(ctx):
     ]
     ctx.require("monitor", "store_location_calls", 6)
     ctx.require("monitor", "calls_after_failed_import", 9)
+    ctx.require("monitor", "calls_with_neighbour_pins", 30)
     ctx.require("monitor", "calls", 31)
     ctx.require("monitor", "failed_verifications", 19)
     ctx.require("monitor", "verify_returns_seen", 29)
@@ -158,7 +159,7 @@ def run(ctx):
     modes = ["eager", "lazy", "after-client-done"]
     try:
         with peers.ScriptedPeer(idents["good"], behaviour, name="main") as peer, peers.ScriptedPeer(idents["good"], behaviour, name="second") as peer2, \
-                peers.HostMap({"pinned.test": "127.0.0.1"}), OrderMonitor() as mon:
+                peers.HostMap({"pinned.test": "127.0.0.1", "a_b.test": "127.0.0.1", "axb.test": "127.0.0.1", "a-b.test": "127.0.0.1", "ab.test": "127.0.0.1", "a_b.test.": "127.0.0.1"}), OrderMonitor() as mon:
             k = 0
             for situation in situations:
                 for op, size in ops:
@@ -319,6 +320,8 @@ def run(ctx):
                 run_store_location(ctx, peer, idents, state, tmp, mon)
             if ctx.mine(k + 5):
                 run_after_failed_import(ctx, peer, idents, state, tmp, mon)
+            if ctx.mine(k + 6):
+                run_neighbour_pins(ctx, peer, idents, state, tmp, mon)
             # ---- concurrent calls on one client
             if ctx.mine(k + 1):
                 run_concurrent(ctx, peer, idents, state, tmp, mon)
@@ -458,6 +461,62 @@ def run_after_failed_import(ctx, peer, idents, state, tmp, mon):
                 elif res[0] == "response":
                     ctx.undecided("after-failed-import: verification did not fail (see C03)")
                 ctx.case(("after-failed-import", op, mode, bad, res[0], bool(received)), True, sample=wit)
+
+
+def run_neighbour_pins(ctx, peer, idents, state, tmp, mon):
+    """The store also holds pins of OTHER hosts whose names resemble the one asked for (a character that is a
+    wildcard somewhere, a name that is a prefix of the other, another port): the peer presents the certificate
+    pinned for the neighbour.  For the host asked for that is a changed certificate - nothing is sent."""
+    from cryptography import x509
+
+    from nauyaca.client.session import GeminiClient
+    from nauyaca.security.tofu import CertificateChangedError
+
+    presented = x509.load_der_x509_certificate(idents["good"].der)
+    pinned_for_asked = x509.load_der_x509_certificate(idents["other"].der)
+    pairs = [("a_b.test", "axb.test"), ("a_b.test", "a-b.test"), ("ab.test", "a_b.test"), ("a_b.test", "ab.test"), ("a_b.test", "a_b.test:other-port")]
+    for op in ("get", "upload", "delete"):
+        for asked, neighbour in pairs:
+            for order in ("neighbour-first", "asked-first"):
+                d = os.path.join(tmp, f"nb-{op}-{asked}-{neighbour.replace(':', '_')}-{order}")
+                os.makedirs(d)
+                state.update(mode="eager", redirect_to=None)
+                state["go"].set()
+                peer.swap_cert(idents["good"])
+                client = GeminiClient(timeout=6, trust_on_first_use=True, tofu_db_path=Path(d) / "pins.db")
+                nb_host, nb_port = (neighbour.split(":")[0], peer.port + 1) if ":" in neighbour else (neighbour, peer.port)
+                steps = [(nb_host, nb_port, presented), (asked, peer.port, pinned_for_asked)]
+                for hst, prt, crt in (steps if order == "neighbour-first" else steps[::-1]):
+                    client.tofu_db.trust(hst, prt, crt)
+                url = f"gemini://{asked}:{peer.port}/private?q=SECRETQUERY"
+                n0 = len(peer.log)
+
+                async def call():
+                    if op == "get":
+                        return await client.get(url)
+                    if op == "delete":
+                        return await client.delete(url, token="SECRETTOKEN")
+                    return await client.upload(url, b"SECRET" * 30, mime_type="text/plain", token="SECRETTOKEN")
+
+                try:
+                    resp = asyncio.run(call())
+                    res = ("response", resp.status)
+                except CertificateChangedError:
+                    res = ("changed",)
+                except BaseException as e:  # noqa: BLE001
+                    res = ("error", type(e).__name__)
+                peer.wait_idle(3)
+                received = b"".join(r["received"] for r in peer.log[n0:])
+                ctx.count("monitor", "calls")
+                ctx.count("monitor", "failed_verifications")
+                ctx.count("monitor", "calls_with_neighbour_pins")
+                wit = {"operation": op, "asked_for": f"{asked}:{peer.port}", "its_pin": "certificate X", "neighbour_pin": f"{nb_host}:{nb_port} -> certificate Y", "pinned_in_order": order, "peer_presents": "certificate Y",
+                       "result": res, "peer_received_len": len(received), "peer_received_head": received[:100]}
+                if received:
+                    ctx.violation(f"peer-received-bytes:entry={op}:pin=changed:neighbour-pin-matches", f"{len(received)} request bytes reached a peer whose certificate differs from the pin of the host asked for (it matches a neighbour's pin)", wit)
+                elif res[0] == "response":
+                    ctx.undecided("neighbour-pins: verification did not fail (see C03)")
+                ctx.case(("neighbour-pins", op, asked, neighbour, order, res[0], bool(received)), True, sample=wit)
 
 
 def run_reuse_after_context(ctx, peer, idents, state, tmp, mon):
